@@ -873,6 +873,9 @@ class RepeatInfo:
             z3.And(j >= 0, j <= k, k < tot), src(j) <= src(k)),
             patterns=[z3.MultiPattern(src(j), src(k))]))
         st.assume(tot == sum_int(st, reps))
+        self.n = reps.n
+        self.alen = lambda i: reps.at(i)
+        A.register_segmap(st, self)
 
 
 def repeat_info(st, reps):
